@@ -14,6 +14,10 @@ import (
 type ackState struct {
 	seen rangeset[packetNumber]
 
+	// Packet numbers below floor belong to ranges we have discarded from seen.
+	// It never decreases, unlike seen.min(), which receive can lower again.
+	floor packetNumber
+
 	// The time at which we must send an ACK frame, even if we have no other data to send.
 	nextAck time.Time
 
@@ -38,7 +42,7 @@ type ecnCounts struct {
 
 // shouldProcess reports whether a packet should be handled or discarded.
 func (acks *ackState) shouldProcess(num packetNumber) bool {
-	if packetNumber(acks.seen.min()) > num {
+	if num < acks.floor || packetNumber(acks.seen.min()) > num {
 		// We've discarded the state for this range of packet numbers.
 		// Discard the packet rather than potentially processing a duplicate.
 		// https://www.rfc-editor.org/rfc/rfc9000.html#section-13.2.3-5
@@ -105,6 +109,7 @@ func (acks *ackState) receive(now time.Time, space numberSpace, num packetNumber
 	const maxAckRanges = 8
 	if overflow := acks.seen.numRanges() - maxAckRanges; overflow > 0 {
 		acks.seen.removeranges(0, overflow)
+		acks.floor = max(acks.floor, acks.seen.min())
 	}
 }
 
@@ -205,6 +210,7 @@ func (acks *ackState) handleAck(largestAcked packetNumber) {
 	// We rely on acks.seen containing the largest packet number that has been successfully
 	// processed, so we retain the range containing largestAcked and discard previous ones.
 	acks.seen.sub(0, acks.seen.rangeContaining(largestAcked).start)
+	acks.floor = max(acks.floor, acks.seen.min())
 }
 
 // largestSeen reports the largest seen packet.
